@@ -12,6 +12,9 @@
 (*             wait / new client of length D over two behaviour sets - a   *)
 (*             hit inside the TTL followed by a query after the original   *)
 (*             expiry (a hit must not renew the time-to-live)              *)
+(*   "ttlcls"  ribbit/cdn/config TTL = 600/1800/3000 ms x every endpoint   *)
+(*             class: queries clearly inside and clearly after the class's *)
+(*             own TTL, with and without a new client                      *)
 (*   "split"   the concrete TCP response shapes (byte classes dumped by the*)
 (*             driver, IOEnv.SHAPES) x 1-cut / 2-cut splits                *)
 (* MC_TcpRead (all short byte-class sequences x all splits) and            *)
@@ -35,7 +38,7 @@ Beh3(a, b, c) == [https |-> a, http |-> b, tcp |-> c]
 
 Cfg(fam, cache, ttl, cls, beh, beh2) ==
   [fam |-> fam, cache |-> cache, ttl |-> ttl, cls |-> cls, beh |-> beh, beh2 |-> beh2, docs |-> AbsDocs,
-   resp |-> EmptyResp, sh |-> 0, shape |-> "", cuts |-> <<>>]
+   resp |-> EmptyResp, sh |-> 0, shape |-> "", cuts |-> <<>>, prog |-> <<>>]
 
 \* ---- chain / stall --------------------------------------------------------
 \* TCP-only classes never look at the HTTP behaviours: two assignments are enough to see that
@@ -64,6 +67,20 @@ RenewSets == { <<"versions", Beh3("OkBpsv", "OkBpsv", "OkBpsv")>>, <<"summary", 
 RenewCfgs == {Cfg("renew", c, "mid", pr[1], pr[2], pr[2]) : c \in {"mem", "disk"}, pr \in RenewSets}
 WaitMs == 400
 QMs == 20              \* nominal duration of a query on the model checker's clock
+
+\* ---- ttlcls ------------------------------------------------------------------
+\* ribbit_ttl / cdn_ttl / config_ttl = 600 / 1800 / 3000 ms and every endpoint class: four queries with gaps
+\* chosen so that, for the class's own TTL, the queries fall clearly inside it (hit required) and clearly after
+\* it (traffic required); a new client (disk) before none or one of the later queries.  Any class -> TTL mapping
+\* other than TtlOf puts a hit or a fetch into the wrong window.
+Gaps(cls) == {<<400, 400, 400>>} \cup (IF TtlOf(cls) = 1800 THEN {<<1000, 1000, 1000>>}
+                                      ELSE IF TtlOf(cls) = 3000 THEN {<<1000, 1000, 1400>>} ELSE {})
+TtlProg(g, r) ==      \* r = 0: no new client; r = i: a new client before query i + 1
+  LET step(i) == <<[op |-> "wait", ms |-> g[i]]>> \o (IF r = i THEN <<[op |-> "reopen"]>> ELSE <<>>) \o <<[op |-> "query", p |-> 1]>>
+  IN <<[op |-> "query", p |-> 1]>> \o step(1) \o step(2) \o step(3)
+TtlClsCfgs ==
+  UNION {{[Cfg("ttlcls", c, "cls", cls, Beh3("OkBpsv", "OkBpsv", "OkBpsv"), Beh3("OkBpsv", "OkBpsv", "OkBpsv")) EXCEPT !.prog = TtlProg(g, r)] :
+            g \in Gaps(cls), r \in (IF c = "disk" THEN 0..3 ELSE {0})} : c \in {"mem", "disk"}, cls \in Classes}
 
 Q(p) == [op |-> "query", p |-> p]
 OpWait == [op |-> "wait", ms |-> WaitMs]
@@ -121,12 +138,15 @@ Cfgs == CASE Family = "chain" -> ChainCfgsOk
           [] Family = "stall" -> StallCfgs
           [] Family = "cache" -> CacheCfgs
           [] Family = "renew" -> RenewCfgs
+          [] Family = "ttlcls" -> TtlClsCfgs
           [] Family = "split" -> SplitCfgsOk
 
 Len0 == CASE Family = "chain" -> 2 [] Family = "stall" -> 1 [] Family \in {"cache", "renew"} -> D [] Family = "split" -> 1
+          [] Family = "ttlcls" -> Len(cfg.prog)
 
 OpsNow == CASE Family = "cache" -> CacheOps(cfg, hist)
             [] Family = "renew" -> RenewOps(cfg, hist)
+            [] Family = "ttlcls" -> {cfg.prog[Len(hist) + 1]}
             [] OTHER -> {Q(1)}
 
 \* a query that starts now: [now, now + QMs] on the nominal clock (st.t1 = now)
